@@ -384,7 +384,7 @@ static int ids_equal(const cJSON *id1, const cJSON *id2)
 	if (id1->type != id2->type) {
 		return 0;
 	}
-	if ((id1->type == cJSON_Number) && (id1->valueint == id2->valueint)) {
+	if ((id1->type == cJSON_Number) && (id1->valuedouble == id2->valuedouble)) {
 		return 1;
 	}
 	if ((id1->type == cJSON_String) && (strcmp(id1->valuestring, id2->valuestring) == 0)) {
